@@ -589,7 +589,11 @@ func runC20(p *Prog, r *Report, tier string) {
 				"after refusing the request the handler still reaches the store", true)
 		})
 	}
-	if n4 < 4 {
+	// reference count on the pinned tree: 4 (invalid count / format / method x2); several refusals may share one reply
+	// (a helper that returns the message), so only "none left" loses the anchor - a refusal that disappears is the
+	// business of the rules on the count and on what reaches the store
+	r.Facts["R-GATE.refuse.replies"] = n4
+	if n4 < 1 {
 		r.Undecided("R-GATE.refuse", "anchor: 4xx replies in the handlers", "cmd/collector/collector.go", fmt.Sprintf("found %d, expected invalid count / format / method x2", n4))
 	}
 	// reset stores an empty slice
@@ -710,7 +714,8 @@ func runC20(p *Prog, r *Report, tier string) {
 		})
 		return true
 	})
-	r.Check(nloops >= 4 && nbad == 0, "R-EXHAUST.render", "cmd/collector.addIPFIXMessage: loops over records and elements", p.pos(fd.Pos()),
+	r.Facts["R-EXHAUST.render.loops"] = nloops // 4 on the pinned tree (records x elements, for the template and the data set); one shared nest is 2
+	r.Check(nloops >= 2 && nbad == 0, "R-EXHAUST.render", "cmd/collector.addIPFIXMessage: loops over records and elements", p.pos(fd.Pos()),
 		fmt.Sprintf("%d range loops, none contains continue/break-out/return", nloops), "a rendering loop can skip or stop early (continue/break/return inside it), or the loops over records/elements are gone", false)
 }
 
